@@ -57,6 +57,11 @@ def main():
                         tally["stale"] += 1
                         print(f"stale        {c} {f['property']} (reverse patch no longer applies, three-way merge conflicts)")
                         continue
+                    rc3, dd = sh("git diff HEAD --stat", "/repo")
+                    if not dd.strip():
+                        tally["stale"] += 1
+                        print(f"stale        {c} {f['property']} (the lines of this repair were rewritten by a later one: the merged reversal changes nothing)")
+                        continue
                     rc, o = sh("cargo check -q --offline -p darling_core 2>&1 | tail -3", "/repo", {"CARGO_TARGET_DIR": "/var/tmp/mutsweep-target", "RUSTFLAGS": "-Awarnings"})
                     if "error" in o:
                         tally["stale"] += 1
